@@ -606,6 +606,10 @@ func (r *poolsRunner) runStruct(d poolsDesc, fnMap valid.Name2FnMap, o *poolsOut
 	}
 	var err error
 	choice := r.rng.Intn(4)
+	fnKeys := len(fnMap) // the caller's function table is an input too: the library must not add to it
+	// a rule set registered for a type and then registered again: the first one names a field the type does not have,
+	// so it cannot matter for the result under any reading - but it is the caller's map and must stay as it was
+	var decoys []valid.RM
 	switch {
 	case len(typed) == 0 && len(fnMap) == 0 && choice == 0 && d.Tag == "valid":
 		if unscoped != nil {
@@ -646,6 +650,9 @@ func (r *poolsRunner) runStruct(d poolsDesc, fnMap valid.Name2FnMap, o *poolsOut
 			vs.SetRule(unscoped)
 		}
 		for _, t := range typed {
+			dec := valid.RM{"NoSuchFieldZq": "required"}
+			decoys = append(decoys, dec)
+			vs.SetRule(dec, t.obj)
 			vs.SetRule(t.rm, t.obj)
 		}
 		for n, fn := range fnMap {
@@ -658,9 +665,12 @@ func (r *poolsRunner) runStruct(d poolsDesc, fnMap valid.Name2FnMap, o *poolsOut
 		got = got.Elem()
 	}
 	o.inputSame = reflect.DeepEqual(got.Interface(), pristine.Interface())
-	o.rmSame = poolsRMEqual(unscoped, unscopedCopy)
+	o.rmSame = poolsRMEqual(unscoped, unscopedCopy) && len(fnMap) == fnKeys
 	for _, t := range typed {
 		o.rmSame = o.rmSame && poolsRMEqual(t.rm, t.copy)
+	}
+	for _, dec := range decoys {
+		o.rmSame = o.rmSame && len(dec) == 1 && dec["NoSuchFieldZq"] == "required"
 	}
 	return err
 }
@@ -719,6 +729,7 @@ func (r *poolsRunner) runMap(d poolsDesc, fnMap valid.Name2FnMap, o *poolsOutcom
 	src, pristine := mk(), mk()
 	rm, rmCopy := poolsRM(d.Unscoped), poolsRM(d.Unscoped)
 	var err error
+	fnKeys := len(fnMap)
 	if len(fnMap) == 0 && r.rng.Intn(2) == 0 {
 		o.api = "Map"
 		err = valid.Map(src, rm)
@@ -727,7 +738,7 @@ func (r *poolsRunner) runMap(d poolsDesc, fnMap valid.Name2FnMap, o *poolsOutcom
 		err = valid.MapFn(src, rm, fnMap)
 	}
 	o.inputSame = reflect.DeepEqual(src, pristine)
-	o.rmSame = poolsRMEqual(rm, rmCopy)
+	o.rmSame = poolsRMEqual(rm, rmCopy) && len(fnMap) == fnKeys
 	return err
 }
 
